@@ -333,6 +333,14 @@ class Project:
             k_t += sum(normalise.eliminate_temps(f.node) for f in fns)
       if k_t:
         self.inlined.append(f'{k_t} single-assignment local(s) substituted')
+      if hp and expand.get('temps'):
+        ks = sum(normalise.sink_selected_calls(f.node) for f in fns)
+        if ks:
+          self.inlined.append(f'{ks} call(s) through a selected function '
+                              'written at the selection')
+          self.inlined += inline.Inliner(
+              self, None if hp is True else list(hp)).run().sites
+          k_t += sum(normalise.eliminate_temps(f.node) for f in fns)
       if hp and (expand.get('temps') or expand.get('loops')):
         # records whose aliases went away with the temporaries
         folder = inline.Inliner(self, None)
